@@ -33,7 +33,7 @@ func checkSummaryTotals(sum summaryInfo, tally map[string]int, skips int) error 
 		want int
 	}{{"passed", sum.Passed, tally[oPassed]}, {"failed", sum.Failed, tally[oFailed]}, {"added", sum.Added, tally[oAdded]}, {"updated", sum.Updated, tally[oUpdated]}, {"skipped", sum.Skipped, skips}} {
 		if x.got != x.want {
-			return fmt.Errorf("summary shows %d %s, the process had %d (all tallies: %v, skips %d); summary %q", x.got, x.name, x.want, tally, skips, clip(sum.Raw))
+			return fmt.Errorf("summary shows %d %s, the process had %d (all tallies: %v, skips %d); summary %q", x.got, x.name, x.want, tally, skips, vhClip(sum.Raw))
 		}
 	}
 	return nil
@@ -88,7 +88,7 @@ func checkC20(c c20Case) error {
 			}
 			for ci, cfg := range h.Cfgs {
 				p := filepath.Join(root, cfg.multiPath())
-				data := readFile(p)
+				data := vhReadFile(p)
 				if len(live[ci]) == 0 {
 					if _, err := os.Stat(p); err == nil && anyAddressed {
 						wantFiles[p] = true
@@ -198,7 +198,7 @@ func checkC20(c c20Case) error {
 					}
 				}
 				for f := range gotFiles {
-					if _, still := after[relTo(root, f)]; still {
+					if _, still := after[vhRelTo(root, f)]; still {
 						return fmt.Errorf("process %d (clean mode): file %q listed as removed but still exists", pi, f)
 					}
 				}
@@ -404,7 +404,7 @@ func checkC20Par(c c20ParCase) error {
 			if ec.Skip != "" {
 				skips++
 				if len(o.errs) != 0 || len(o.logs) != 1 || !strings.Contains(o.logs[0], "Snapshot skipped") {
-					return fmt.Errorf("%s: snaps.%s signalled errors=%q logs=%q", pt.Name, ec.Skip, clipAll(o.errs), clipAll(o.logs))
+					return fmt.Errorf("%s: snaps.%s signalled errors=%q logs=%q", pt.Name, ec.Skip, vhClipAll(o.errs), vhClipAll(o.logs))
 				}
 				continue
 			}
@@ -419,10 +419,10 @@ func checkC20Par(c c20ParCase) error {
 			case len(o.errs) == 1 && len(o.logs) == 0:
 				got = oFailed
 			default:
-				return fmt.Errorf("%s call %d: not exactly one outcome: errors=%q logs=%q", pt.Name, k+1, clipAll(o.errs), clipAll(o.logs))
+				return fmt.Errorf("%s call %d: not exactly one outcome: errors=%q logs=%q", pt.Name, k+1, vhClipAll(o.errs), vhClipAll(o.logs))
 			}
 			if got != pt.Want[k] {
-				return fmt.Errorf("%s call %d (%s, mode %+v): outcome %s, a serial execution gives %s; errors=%q", pt.Name, k+1, ec.Call.API, c.Mode, got, pt.Want[k], clipAll(o.errs))
+				return fmt.Errorf("%s call %d (%s, mode %+v): outcome %s, a serial execution gives %s; errors=%q", pt.Name, k+1, ec.Call.API, c.Mode, got, pt.Want[k], vhClipAll(o.errs))
 			}
 			tally[got]++
 		}
@@ -454,9 +454,9 @@ func storedBodyVia(c Call) (string, error) {
 	r := c.invoke(spec.build(tmp), ft)
 	ft.finish()
 	if out, err := outcomeOf(r); err != nil || out != oAdded {
-		return "", fmt.Errorf("harness: recording a value alone: %q %v %q", out, err, clipAll(r.Errors))
+		return "", fmt.Errorf("harness: recording a value alone: %q %v %q", out, err, vhClipAll(r.Errors))
 	}
-	es, err := refParse(readFile(filepath.Join(tmp, spec.multiPath())))
+	es, err := refParse(vhReadFile(filepath.Join(tmp, spec.multiPath())))
 	if err != nil || len(es) != 1 {
 		return "", fmt.Errorf("harness: recording a value alone produced %d entries (%v)", len(es), err)
 	}
